@@ -258,32 +258,22 @@ def entry (host : Host) (launched addressed : Bool) (c : CAct) : Act × Bool :=
 
 def Timer.launched (t : Timer) : Bool := t.ctl != .notStarted
 
-/-- the record printed for one case step -/
-structure Rec where
-  res : Res := .unit
-  effects : List Eff := []
-  events : List (Nat × Ev) := []
-  done : Option Bool := none
-deriving DecidableEq, Repr
-
+/-- what every timer does in one case step -/
 def stepAll (host : Host) (c : CAct) (i : Nat) (ts : List Timer) : List (Timer × Out) :=
   ts.mapIdx fun j t => let e := entry host t.launched (j == i) c; step t e.1 e.2
 
-def mergeRec (host : Host) (c : CAct) (i : Nat) (rs : List (Timer × Out)) : Rec :=
-  { res := match rs[i]? with | some r => r.2.res | none => .unit
-    effects := rs.flatMap (·.2.effects)
-    events := (rs.mapIdx fun j r => r.2.events.map fun e => (j, e)).flatten
-    done := match host, c, rs[i]? with
-      | .cmd, .poll, some r => if r.2.res = .unit then some r.2.done else none
-      | _, _, _ => none }
-
-def wstep (host : Host) (ts : List Timer) (c : CAct) (i : Nat) : List Timer × Rec :=
+/-- one case step: the new timers and, per timer, what it showed (the harness prints them merged, see Driver/Timer.lean) -/
+def wstep (host : Host) (ts : List Timer) (c : CAct) (i : Nat) : List Timer × List Out :=
   let rs := stepAll host c i ts
-  (rs.map (·.1), mergeRec host c i rs)
+  (rs.map (·.1), rs.map (·.2))
 
-def wrun (host : Host) : List Timer → List (CAct × Nat) → List Rec
+def wrun (host : Host) : List Timer → List (CAct × Nat) → List (List Out)
   | _, [] => []
   | ts, (c, i) :: rest => let (ts', r) := wstep host ts c i; r :: wrun host ts' rest
+
+def wfinal (host : Host) : List Timer → List (CAct × Nat) → List Timer
+  | ts, [] => ts
+  | ts, (c, i) :: rest => wfinal host (wstep host ts c i).1 rest
 
 def mkTimers (kinds : List Kind) (ids : List Nat) : List Timer :=
   (kinds.zip ids).map fun (k, id) => { kind := k, id := id }
@@ -380,15 +370,15 @@ def lstepTimer (counter : Nat) (cleared : List Nat) (t : LTimer) : LAct → Nat 
     (counter, cleared, t, { res := if t.clears = 0 then .na else .err })
   | .tick => (counter, cleared, t, {})
 
-def lstep (w : LWorld) (a : LAct) (i : Nat) : LWorld × Rec :=
+/-- one case step; only the addressed timer does (and shows) anything -/
+def lstep (w : LWorld) (a : LAct) (i : Nat) : LWorld × Out :=
   match w.timers[i]? with
   | none => (w, {})
   | some t =>
     let (c, cl, t', o) := lstepTimer w.counter w.cleared t a
-    ({ counter := c, cleared := cl, timers := w.timers.set i t' },
-     { res := o.res, effects := o.effects, events := o.events.map fun e => (i, e) })
+    ({ counter := c, cleared := cl, timers := w.timers.set i t' }, o)
 
-def lrun : LWorld → List (LAct × Nat) → List Rec
+def lrun : LWorld → List (LAct × Nat) → List Out
   | _, [] => []
   | w, (a, i) :: rest => let (w', r) := lstep w a i; r :: lrun w' rest
 
